@@ -360,6 +360,8 @@ func c18SeenTypes(m proto.Message, seen map[string]bool) {
 // deliberate, documented non-representabilities / normalisations: counted as outcomes, never as
 // violations. Each entry names the key (regexp, full match) and where the code says so.
 
+var c18MappedRe = regexp.MustCompile(`::ffff:(\d+\.\d+\.\d+\.\d+)`)
+
 var c18Deliberate = []struct {
 	Key *regexp.Regexp
 	Why string
@@ -600,6 +602,9 @@ func c18CheckElem(x *c18Ctx, e c18Elem, onlyVariant string, replayOne bool) {
 					if dd := e.Delta(native, x2); dd != "" {
 						tag = ":" + dd + tag
 					}
+				}
+				if tag == "" && c18MappedRe.ReplaceAllString(s1, "$1") == c18MappedRe.ReplaceAllString(s2, "$1") {
+					tag = "@v4mapped-nexthop" // only the notation of an IPv4-mapped next hop differs (documented Unmap)
 				}
 				x.violate(kp+":native-api-native:string-differs"+tag, cs, "%s: same bytes but String() %q became %q (types %s -> %s)", e.Name, s1, s2, c18TypeName(native), c18TypeName(x2))
 			}
